@@ -16,6 +16,13 @@ demo() { cp $D/demo_test.go $WT/$PKG/zz_seeded_demo_test.go; go test -count=1 -r
 echo "== demo on clean tree" >> $LOG; if demo; then A=pass; else A=FAIL; fi
 if git apply $D/patch.diff 2>>$LOG; then P=applies; else P=NOAPPLY; fi
 echo "== build" >> $LOG; if go build ./... >> $LOG 2>&1; then B=builds; else B=NOBUILD; fi
-echo "== own tests of $PKGS" >> $LOG; if go test -count=1 -vet=off $PKGS >> $LOG 2>&1; then T=tests-pass; else T=TESTS-FAIL; fi
+echo "== own tests of $PKGS" >> $LOG; if go test -count=1 -vet=off $PKGS > $LOG.suite 2>&1; then T=tests-pass; else
+  # compare with the clean tree: tests that fail there too (network-dependent, timing-bound) do not count against the change
+  grep -E '^\s*--- FAIL' $LOG.suite | sed 's/ (.*//' | sort -u > $LOG.f1
+  git apply -R $D/patch.diff; go test -count=1 -vet=off $PKGS > $LOG.suite0 2>&1; git apply $D/patch.diff
+  grep -E '^\s*--- FAIL' $LOG.suite0 | sed 's/ (.*//' | sort -u > $LOG.f0
+  if [ -s $LOG.f1 ] && [ -z "$(comm -23 $LOG.f1 $LOG.f0)" ]; then T="tests-pass(same-failures-as-clean-tree:$(tr -d ' ' < $LOG.f1 | tr '\n' ',' | sed 's/---FAIL://g'))"; else T=TESTS-FAIL; fi
+  cat $LOG.suite0 >> $LOG; rm -f $LOG.f0 $LOG.f1 $LOG.suite0
+fi; cat $LOG.suite >> $LOG; rm -f $LOG.suite
 echo "== demo with patch" >> $LOG; if demo; then C=PASSES-BAD; else C=fails; fi
 echo "$ID head=$(git -C /repo rev-parse --short HEAD) demo-clean=$A patch=$P build=$B suite($PKGS)=$T demo-patched=$C" | tee $D/verify.txt
